@@ -119,6 +119,11 @@ bool linepart::array::apply(const transform &tr, int dim, span<const double> src
 		// no visible points
 		if (!old.usr || !len) {
 			pt = old;
+			// no data left for visible points
+			if (!len) {
+				pt.usr = 0;
+				pt._cut = pt._trim = 0;
+			}
 			// skip invisible data
 			if (len > pt.raw) {
 				len -= pt.raw;
@@ -134,7 +139,9 @@ bool linepart::array::apply(const transform &tr, int dim, span<const double> src
 			}
 		} else {
 			if (len < old.usr) {
+				// trailing line end is beyond available data
 				old.usr = len;
+				old._trim = 0;
 			}
 			pt = tr.part(dim, val, old.usr);
 			// minimize leading line
